@@ -29,4 +29,30 @@ CHECKS = {
         "note": "Trusted: std VecDeque/SmallVec/RefCell, Waker contract; the rules are necessary conditions for 'a waiting side is woken when capacity or data becomes available'.",
         "technique": "must-pass-through (path) rules + waker-list policy rule on rustc MIR",
     },
+    "C11": {
+        "text": "Partial, static: ownership (linearity) analysis on the drop-elaborated MIR of all 33 Pull::pull impls of dfir_pipes (and their closures): every item bound "
+                "out of an upstream Ready result is moved onward on every path - in particular on the paths that return Pending/Ended because a second upstream was not "
+                "ready (Zip, ZipLongest, CrossSingleton, Chain, FlatMap*, Flatten*, FilterMapAsync, SymmetricHashJoin); intentional discards (filter, skip, skip_while, "
+                "take_while terminator, join probing by reference) are table entries. Also: a combinator with upstreams returns Pending only when an upstream "
+                "pended in that call (else nobody registered a waker), and Fuse's ended-typestate. Item order, size hints and equality with iterator semantics are NOT "
+                "decided; payloads discarded through wildcard patterns are not examined.",
+        "note": "Trusted: rustc drop elaboration (-Zmir-opt-level=0): a remaining Drop terminator is a real drop on some path.",
+        "technique": "ownership/linearity may-dataflow on drop-elaborated MIR + must-pass-through rules",
+    },
+    "C15": {
+        "text": "Partial, static, on MergeSource::poll_next and TaggedSource::poll_next: a payload polled from a source flows to the return value and its holder is never "
+                "overwritten or dropped while it may hold it (flow-sensitive: catches a deleted `break`); the tag of every yielded item is the source's own id field; "
+                "Ready(None) is returned only under sources.is_empty(), and a source is removed only on its own Ready(None). Fairness, cursor arithmetic and per-sender "
+                "order are NOT decided (value-level).",
+        "note": "One table exception: the static drop of `out` on the is_empty() return is dynamically infeasible (reason in rules/exceptions_table.py).",
+        "technique": "ownership may-dataflow + dominance rules on rustc MIR",
+    },
+    "C27": {
+        "text": "Static, near-complete for the stated clause: the runner uses the flag + AtomicWaker pattern, whose proof obligations are ordering facts on a handful of "
+                "call sites; all are decided on the MIR for every function of dfir_rs that touches the flag or the waker (no frozen function list): store(true) dominates "
+                "AtomicWaker::wake; register dominates the deciding load and every Pending passes register; every clear of the flag (store/swap false) is followed by a tick "
+                "on all paths or its old value decides a tick / is returned; any other mutating access is reported. Async fns are analysed on their pre-lowering coroutine MIR.",
+        "note": "Trusted: futures::task::AtomicWaker's contract, the executor. Memory-ordering strength is not judged.",
+        "technique": "dominator / must-pass-through ordering rules on rustc MIR incl. coroutine bodies",
+    },
 }
